@@ -35,23 +35,34 @@ Corollary C03_schedule_independent : forall body dis user gens inputs pis pis' r
 Proof. exact par_schedule_independent. Qed.
 Print Assumptions C03_schedule_independent.
 
-(* converse (functions with at least one output name): a parallel run that succeeds for SOME schedule implies that
-   the sequential run succeeds, with the same results -- so success itself does not depend on the schedule *)
+(* converse: a parallel run that succeeds for SOME schedule implies that the sequential run succeeds, with the same
+   results -- so success itself does not depend on the schedule.  The only side condition is C01's request_ok
+   (it gives: a function with a MapSpec has at least one output name, as its MapSpec has); the `_mapped_named` forms
+   state that condition directly. *)
 Theorem C03_par_ok_seq_ok : forall body dis user gens inputs pis ps,
-  layering_ok gens = true -> (forall f, In f (concat gens) -> fouts f <> []) ->
+  layering_ok gens = true -> MapDenote.request_ok (concat gens) inputs = true ->
+  par_run body dis gens inputs user pis = Ok ps ->
+  exists rs, map_run body (concat gens) inputs user = Ok rs
+             /\ p_env ps = r_env rs /\ p_shapes ps = r_shapes rs /\ p_out ps = r_out rs
+             /\ length (p_log ps) = r_calls rs.
+Proof. exact par_ok_seq_ok_req. Qed.
+Print Assumptions C03_par_ok_seq_ok.
+
+Corollary C03_par_ok_any_schedule : forall body dis user gens inputs pis pis' ps,
+  layering_ok gens = true -> MapDenote.request_ok (concat gens) inputs = true ->
+  par_run body dis gens inputs user pis = Ok ps ->
+  exists ps', par_run body dis gens inputs user pis' = Ok ps' /\ p_out ps' = p_out ps /\ p_env ps' = p_env ps.
+Proof. exact par_ok_any_schedule_req. Qed.
+Print Assumptions C03_par_ok_any_schedule.
+
+Theorem C03_par_ok_seq_ok_mapped_named : forall body dis user gens inputs pis ps,
+  layering_ok gens = true -> (forall f, In f (concat gens) -> is_mapped f = true -> fouts f <> []) ->
   par_run body dis gens inputs user pis = Ok ps ->
   exists rs, map_run body (concat gens) inputs user = Ok rs
              /\ p_env ps = r_env rs /\ p_shapes ps = r_shapes rs /\ p_out ps = r_out rs
              /\ length (p_log ps) = r_calls rs.
 Proof. exact par_ok_seq_ok. Qed.
-Print Assumptions C03_par_ok_seq_ok.
-
-Corollary C03_par_ok_any_schedule : forall body dis user gens inputs pis pis' ps,
-  layering_ok gens = true -> (forall f, In f (concat gens) -> fouts f <> []) ->
-  par_run body dis gens inputs user pis = Ok ps ->
-  exists ps', par_run body dis gens inputs user pis' = Ok ps' /\ p_out ps' = p_out ps /\ p_env ps' = p_env ps.
-Proof. exact par_ok_any_schedule. Qed.
-Print Assumptions C03_par_ok_any_schedule.
+Print Assumptions C03_par_ok_seq_ok_mapped_named.
 
 (* the storage content of one mapped function does not depend on the order of the dumps:
    (statement of the key lemma: see Proofs/ParGenFacts.stored_any_schedule) *)
@@ -102,7 +113,7 @@ Definition ex_dis (o : str) : bool := str_eqb o (s "y") || str_eqb o (s "w").
 
 Example C03_ex_layering : layering_ok ex_gens = true.
 Proof. vm_compute. reflexivity. Qed.
-Example C03_ex_outputs_named : forallb (fun f => match fouts f with [] => false | _ => true end) (concat ex_gens) = true.
+Example C03_ex_request_ok : MapDenote.request_ok (concat ex_gens) ex_inputs = true.
 Proof. vm_compute. reflexivity. Qed.
 Example C03_ex_sequential_ok : is_ok (map_run sym_body (concat ex_gens) ex_inputs []) = true.
 Proof. vm_compute. reflexivity. Qed.
